@@ -32,6 +32,10 @@ def _tee_cases(tier):
                         [[0, 1], [n - 1, 1], ["close", n - 1], [0, ln + 1]],    # close a later child, drain the first
                         [[c, 1] for c in range(n)] + [["close", 0]] + [[c, ln + 1] for c in range(1, n)],
                         [[0, ln // 2 + 1], [1, ln + 1], [0, ln + 1]]]
+                if kind == "list":
+                    # the list changes while the children are at different positions: the children share ONE iterator
+                    pats.append([[0, ln + 1], ["append"], [n - 1, ln + 2], [0, 1]])
+                    pats.append([[0, 1], ["append"], [n - 1, ln + 2], [0, ln + 2]])
                 for pat in pats:
                     yield {"tool": "tee", "family": "tee", "n": n, "params": {}, "pattern": pat, "fns": [],
                            "srcs": [{"kind": kind, "script": [["o", i, i % 2] for i in range(ln)]}], "cons": {"fin": "exhaust"}}
@@ -67,6 +71,10 @@ def _run_tee(case, sync):
         fetched = lambda: min(st.pulls, len(items))               # noqa: E731
     closed = set()
     for step in case["pattern"]:
+        if step[0] == "append":
+            extra = mkscript([["o", 900, 0]])[0][1]
+            (items if sync else src).append(extra)
+            continue
         if step[0] == "close":
             closed.add(step[1])
             if not sync:
@@ -93,6 +101,8 @@ def _run_tee(case, sync):
     res = {"out": [out[c] for c in range(case["n"])], "ends": [ends.get(c) for c in range(case["n"])]}
     if case["srcs"][0]["kind"] != "list":        # pulls from a real list are not observable
         res["fetched_after"] = fetched_after
+    elif not sync:
+        res["list_iters"] = st.iters            # ... but how often an iterator is requested from it is
     return res
 
 
@@ -220,6 +230,9 @@ def judge(case, obs, model):
         return []
     if case.get("family") == "tee":
         a, b = obs["tee_async"], obs["tee_sync"]
+        if a.get("list_iters", 0) > 1:
+            issues.append(Issue("oracle", {"iterator_requests": a["list_iters"]}, "list-argument-iterated-again:tee"))
+        a = {k: v for k, v in a.items() if k != "list_iters"}
         if (a["out"], a["ends"]) != (b["out"], b["ends"]):
             issues.append(Issue("oracle", {"asyncstdlib": a, "itertools": b}, "items-differ:tee"))
         return issues
